@@ -51,11 +51,16 @@ def run_once(r):
         doc = "id,name,qty\n" + doc
     data = doc.encode()
     sql = "SELECT * FROM stdin.%s s" % fmt
+    # the stdin table referenced twice (the schema preview is opened once per reference, the data only once):
+    # the first disjunct holds for every row, so the subquery is planned but never needed for the result
+    twice = hdr.chance(1, 4)
+    if twice:
+        sql += " WHERE s.id >= %s OR s.id IN (SELECT b.id FROM stdin.%s b)" % ("-1000.0" if fmt == "json" else "-1000", fmt)
     if limit is not None:
         sql += " LIMIT %d" % limit
     attrs = {"source": "stdin." + fmt}
     r.log("%s: %d rows (%d bytes), chunks=%s" % (sql, n, len(data), chunk_sizes))
-    r.shape(fmt, n, pad, chunk_sizes, limit)
+    r.shape(fmt, n, pad, chunk_sizes, limit, twice)
     r.sched(hdr.recorded() if False else str(chunk_sizes), hashlib_of(doc))
     r.nontrivial = n >= 2
 
